@@ -44,6 +44,7 @@ def main():
     ap.add_argument("--ideas", action="store_true", help="candidate slips implemented by sub-agents (mutants/ideas/<id>/patch.diff), no demonstration")
     ap.add_argument("--benign", action="store_true", help="behaviour-preserving changes (benign/<id>/patch.diff): every check must stay quiet")
     ap.add_argument("--keep", action="store_true")
+    ap.add_argument("--stop-at-catch", action="store_true", help="run a change's checks in order and stop at the first one that catches it")
     ap.add_argument("--json")
     a = ap.parse_args()
     items = []
@@ -101,6 +102,8 @@ def main():
                     print(out[-1500:])
                 sys.stdout.flush()
                 results.append({"id": m["id"], "check": prop, "status": status, "detail": viol[0].strip() if viol else "", "wall_s": round(dt, 1)})
+                if a.stop_at_catch and status == "CAUGHT":
+                    break
         finally:
             if not a.keep:
                 shutil.rmtree(scratch, ignore_errors=True)
